@@ -380,7 +380,9 @@ MORE_THM = {
         "(Lemmas/SpecLaws): a second remove_fully of the same key leaves index, store, bucket files and directories as the "
         "first left them and answers the NotFound of the missing bucket after an ok; a second clear answers ok on the empty "
         "cache; the abstract removal and clear are idempotent for every abstract state (removeFully_idempotent, "
-        "removeFully_again_answers_notFound, clear_idempotent, spec_removals_idempotent).",
+        "removeFully_again_answers_notFound, clear_idempotent, spec_removals_idempotent). Index operations on two different "
+        "keys commute on every healthy cache: same answers, same abstract cache, in either order "
+        "(index_ops_on_different_keys_commute).",
  "C15": " HISTORY LEVEL (Props/C15x, Lemmas/SpecLaws): deleting every keyed read, lookup, by-address read and exists from any "
         "history on a healthy cache leaves every other answer and the final abstract cache unchanged "
         "(reads_do_not_mutate_any_history). PROGRAM LEVEL: every path argument of find / insert / delete for a key is its bucket path or that path's parent; "
